@@ -352,14 +352,19 @@ func (p c10) runStream(sc *C10Scenario, probes map[string]int) *simrt.Violation 
 			return &simrt.Violation{Clause: "decode-then-encode-is-identity", Detail: fmt.Sprintf("value %s: canonical encoding is %q, the encoder produced %q (%v)", v.String(), trunc(m, 80), trunc(enc, 80), eerr)}
 		}
 	}
-	decodeAll := func(sizes []int, cut int) ([]resp2.Value, error, int) {
+	decodeAll := func(sizes []int, cut int) (out []resp2.Value, err error, pos int) {
+		// a panic of the decoder is its verdict on this input: reported as an error value "decoder panicked: ..."
+		defer func() {
+			if r := recover(); r != nil {
+				err = fmt.Errorf("decoder panicked: %v", r)
+			}
+		}()
 		data := stream
 		if cut >= 0 {
 			data = stream[:cut]
 		}
 		cr := &chunkReader{data: data, sizes: sizes}
 		d := redis.VerifNewDecoder(cr, sc.Buf)
-		var out []resp2.Value
 		for {
 			v, err := d.Decode()
 			if err != nil {
@@ -421,6 +426,9 @@ func (p c10) runStream(sc *C10Scenario, probes map[string]int) *simrt.Violation 
 	for cut := 0; cut < len(stream); cut += step {
 		probes["c10.eof-injections"]++
 		got, err, _ := decodeAll(sc.Splits, cut)
+		if err != nil && strings.HasPrefix(err.Error(), "decoder panicked") {
+			return &simrt.Violation{Clause: "eof-mid-message-is-an-error", Detail: fmt.Sprintf("stream cut at byte %d, reader buffer %d: %v; stream %q", cut, sc.Buf, err, trunc(stream, 120))}
+		}
 		complete := 0
 		for complete+1 < len(bounds) && bounds[complete+1] <= cut {
 			complete++
